@@ -8,6 +8,9 @@ import (
 	"bytes"
 	"encoding/hex"
 	"fmt"
+	"go/constant"
+	"go/token"
+	"go/types"
 	"math/rand"
 	"os"
 	"path/filepath"
@@ -1045,6 +1048,46 @@ func genAsm(out *bufio.Writer, rng *rand.Rand, legacy bool, count int) int {
 	return count * 3
 }
 
+// evalTextual: value of an expression over numbers and EQU names with TEXTUAL substitution of
+// the names, by Go's constant evaluator (tokens separated by blanks, so sign runs stay signs)
+func evalTextual(ts []etok, defs map[string][]etok) (int64, bool) {
+	var expand func(ts []etok, depth int) ([]string, bool)
+	expand = func(ts []etok, depth int) ([]string, bool) {
+		var out []string
+		for _, t := range ts {
+			if t.k == 't' {
+				d, ok := defs[t.s]
+				if !ok || depth > 40 {
+					return nil, false
+				}
+				e, ok := expand(d, depth+1)
+				if !ok {
+					return nil, false
+				}
+				out = append(out, e...)
+			} else if t.k == 'n' {
+				out = append(out, strings.TrimLeft(t.s, "0")+"")
+				if out[len(out)-1] == "" {
+					out[len(out)-1] = "0"
+				}
+			} else {
+				out = append(out, t.s)
+			}
+		}
+		return out, true
+	}
+	ws, ok := expand(ts, 0)
+	if !ok {
+		return 0, false
+	}
+	tv, err := types.Eval(token.NewFileSet(), nil, token.NoPos, strings.Join(ws, " "))
+	if err != nil || tv.Value == nil {
+		return 0, false
+	}
+	v, exact := constant.Int64Val(constant.ToInt(tv.Value))
+	return v, exact
+}
+
 func genExpr(out *bufio.Writer, rng *rand.Rand, count int) int {
 	for n := 0; n < count; n++ {
 		legacy := rng.Intn(4) == 0
@@ -1090,6 +1133,71 @@ func genExpr(out *bufio.Writer, rng *rand.Rand, count int) int {
 			items = append(items, chain...)
 			names = append(names, prev, prev, prev)
 			items = append(items, item{kind: 'A', expr: []etok{{'t', prev}}})
+		}
+		if rng.Intn(5) == 0 {
+			// the expression is a FOR count: the number of copies is its value. A first block
+			// may come before the EQUs the count uses (they are then seen by a later pass only).
+			var fitems []item
+			if rng.Intn(2) == 0 {
+				fitems = append(fitems, item{kind: 'F', name: ident(rng, used), expr: []etok{{'n', fmt.Sprint(rng.Intn(3))}},
+					body: []item{{kind: 'I', op: "nop", a: operand{expr: []etok{{'n', "0"}}}}}})
+			}
+			var small []string
+			for j := 1 + rng.Intn(3); j > 0; j-- {
+				nm := ident(rng, used)
+				e := []etok{{'n', fmt.Sprint(rng.Intn(4))}}
+				if len(small) > 0 && rng.Intn(2) == 0 {
+					e = []etok{{'t', small[rng.Intn(len(small))]}, {'o', []string{"+", "*", "-"}[rng.Intn(3)]}, {'n', fmt.Sprint(rng.Intn(3))}}
+				}
+				fitems = append(fitems, item{kind: 'Q', name: nm, expr: e})
+				small = append(small, nm)
+			}
+			cenv := &exprEnv{rng: rng, names: append(small, small...)}
+			defs := map[string][]etok{}
+			for _, it := range fitems {
+				if it.kind == 'Q' {
+					defs[it.name] = it.expr
+				}
+			}
+			var cnt []etok
+			for try := 0; ; try++ {
+				cnt = cenv.expr(1 + rng.Intn(2))
+				for i := range cnt {
+					if cnt[i].k == 'n' && len(cnt[i].s) > 1 {
+						cnt[i].s = cnt[i].s[:1] // small literals only: the count is the number of copies
+					}
+					if cnt[i].k == 'o' && (cnt[i].s == "/" || cnt[i].s == "%") {
+						cnt[i].s = "+"
+					}
+				}
+				// the count must denote a number of copies: 0..12 (a negative count is outside the
+				// property; gmars takes it as zero)
+				if v, ok := evalTextual(cnt, defs); ok && v >= 0 && v <= 12 {
+					break
+				}
+				if try > 30 {
+					cnt = []etok{{'n', fmt.Sprint(rng.Intn(4))}}
+					break
+				}
+			}
+			ctr := ident(rng, used)
+			mode := ""
+			if legacy {
+				mode = "#"
+			}
+			bo := operand{mode: mode, expr: []etok{{'n', "0"}}}
+			fitems = append(fitems, item{kind: 'F', name: ctr, expr: cnt,
+				body: []item{{kind: 'I', op: "dat", a: operand{mode: mode, expr: []etok{{'t', ctr}}}, b: &bo}}})
+			cfg.Length = 200
+			if cfg.CoreSize < 1000 {
+				cfg.CoreSize, cfg.ReadLimit, cfg.WriteLimit = 8000, 8000, 8000
+			}
+			wire := itemsWire(fitems)
+			for v := 0; v < 2; v++ {
+				text := render(rng, fitems, v == 0)
+				emitAsm(out, fmt.Sprintf("xf%d_%d", n, v), "expr", cfg, text, wire, nil)
+			}
+			continue
 		}
 		env := &exprEnv{rng: rng, names: names, big: true}
 		k := 1 + rng.Intn(3)
